@@ -203,6 +203,12 @@ static const char **multi_include(config_t *c, const char *dir, const char *path
 {
   const char **files; int n = 0, cap = 4;
   *error = NULL;
+  if (path[0] == '!' && path[1] == '!') {
+    /* reports an error AND hands back the (partial) list it had collected: the library must release that list
+     * (observably the same as '!': the model's includeFnEval answers the error for every path starting with '!') */
+    const char **l = malloc(sizeof(char *) * 3); l[0] = strdup(path + 2); l[1] = strdup("second-collected-name.cfg"); l[2] = NULL;
+    *error = "custom include error"; return l;
+  }
   if (path[0] == '!') { *error = "custom include error"; return NULL; }
   if (path[0] == '?') return NULL;
   files = malloc(sizeof(char *) * cap);
